@@ -317,10 +317,20 @@ func GenPackage(r *Rand, name string, opts GenOpts) *WPackage {
 		}
 		p.Objects = append(p.Objects, o)
 	}
+	// wild: a cycle of pure aliases, an alias leading into it, and a struct using that alias
+	if opts.Wild && r.Chance(1, 3) {
+		p.Objects = append(p.Objects,
+			WObject{Name: "CycA", T: &WType{K: "ref", Ref: "CycB"}},
+			WObject{Name: "CycB", T: &WType{K: "ref", Ref: "CycA"}},
+			WObject{Name: "IntoCycle", T: &WType{K: "ref", Ref: "CycA"}},
+			WObject{Name: "UsesCycle", T: &WType{K: "struct", Fields: []WField{{Name: "f", T: &WType{K: "ref", Ref: Pick(r, []string{"IntoCycle", "CycA"})}, Required: r.Bool()}}}},
+		)
+	}
 	// a discriminated family: 2-3 structs with constant `type` (and maybe `kind`) fields
 	if r.Chance(2, 3) {
 		fam := 2 + r.Intn(2)
 		twoDisc := r.Bool()
+		numDisc := !opts.Plain && r.Chance(1, 3)
 		var famNames []string
 		for i := 0; i < fam; i++ {
 			n := fmt.Sprintf("Variant%c", 'A'+i)
@@ -329,6 +339,10 @@ func GenPackage(r *Rand, name string, opts GenOpts) *WPackage {
 			t.Fields = append(t.Fields, WField{Name: "type", T: &WType{K: "const", Const: fmt.Sprintf("v%c", 'a'+i)}, Required: true})
 			if twoDisc {
 				t.Fields = append(t.Fields, WField{Name: "kind", T: &WType{K: "const", Const: fmt.Sprintf("k%c", 'a'+i)}, Required: true})
+			}
+			if numDisc {
+				// a numeric constant common to all variants, sorting before the string ones
+				t.Fields = append(t.Fields, WField{Name: "apiRevision", T: &WType{K: "const", Const: i + 1}, Required: true})
 			}
 			t.Fields = append(t.Fields, WField{Name: "payload", T: g.scalar(), Required: r.Bool()})
 			p.Objects = append(p.Objects, WObject{Name: n, T: t})
